@@ -37,6 +37,9 @@ pub struct Case {
     pub cw: bool,
     pub dw: bool,
     pub discard: bool,
+    /// mirrored viewport: viewport(pt2(r, t)..pt2(l, b)) etc.
+    pub flip: (bool, bool),
+    pub generator: &'static str,
 }
 
 impl Case {
@@ -46,6 +49,8 @@ impl Case {
             .set("target", self.tk.name())
             .set("window", format!("{:?}", self.win))
             .set("viewport_ltrb", format!("{:?}", self.vp))
+            .set("viewport_mirrored_xy", format!("{:?}", self.flip))
+            .set("generator", self.generator)
             .set("projection", if self.ortho { format!("orthographic {:?}..{:?}", self.obox.0, self.obox.1) } else { format!("perspective focal={} aspect={} near={} far={}", f32s(self.focal), f32s(self.aspect), f32s(self.near), f32s(self.far)) })
             .set("verts_view_xyz", Json::Arr(self.verts.iter().map(|(p, _)| Json::Str(f32v(p))).collect()))
             .set("tris", format!("{:?}", self.tris))
@@ -96,9 +101,15 @@ pub fn mini(rng: &mut Rng, n: usize, rep: &mut Report) {
 }
 
 pub fn gen_sized(rng: &mut Rng, small_max: u64, allow_big: bool) -> Case {
+    gen_dims(rng, small_max, allow_big, None)
+}
+
+/// `dims`: a fixed frame size (the large_targets stream).
+pub fn gen_dims(rng: &mut Rng, small_max: u64, allow_big: bool, dims: Option<(u32, u32)>) -> Case {
     let big = allow_big && rng.chance(1, 4);
     let bw = if big { 25 + rng.below(104) as u32 } else { 1 + rng.below(small_max) as u32 };
     let bh = if big { 25 + rng.below(72) as u32 } else { 1 + rng.below(small_max) as u32 };
+    let (bw, bh) = dims.unwrap_or((bw, bh));
     let tk = rng.pick(&[Tk::FbOwned, Tk::FbOwned, Tk::FbWindow, Tk::ColOwned, Tk::ColWindow]);
     let win = if tk.is_window() {
         let ox = rng.below(bw as u64) as u32;
@@ -125,14 +136,30 @@ pub fn gen_sized(rng: &mut Rng, small_max: u64, allow_big: bool) -> Case {
             (l, t, l + 1 + rng.below((ww - l) as u64) as u32, t + 1 + rng.below((wh - t) as u64) as u32)
         }
     };
-    let near = rng.pick(&[0.01f32, 0.1, 1.0, 10.0]);
-    let far = near * rng.pick(&[1.5f32, 2.0, 10.0, 100.0, 1000.0]);
-    let focal = rng.pick(&[0.1f32, 0.5, 1.0, 2.0, 10.0]);
+    // a palette of round values (their planes are hit exactly by round
+    // coordinates), or anything in the stated domain
+    let free = rng.chance(1, 3);
+    let near = if free { rng.log_f32(1e-3, 1e3) } else { rng.pick(&[0.01f32, 0.1, 1.0, 10.0]) };
+    let far = near * if free { rng.log_f32(1.0001, 1000.0) } else { rng.pick(&[1.5f32, 2.0, 10.0, 100.0, 1000.0]) };
+    let focal = if free { rng.log_f32(0.1, 10.0) } else { rng.pick(&[0.1f32, 0.5, 1.0, 2.0, 10.0]) };
     let aspect = (vp.2 - vp.0) as f32 / (vp.3 - vp.1) as f32;
     let ortho = rng.chance(1, 4);
     let lim = 1000.0 * near;
     let s = near * rng.pick(&[1.0f32, 10.0, 100.0]);
-    let obox = ([-s * rng.f32_in(0.5, 1.0), -s * rng.f32_in(0.3, 1.0), near], [s * rng.f32_in(0.5, 1.0), s * rng.f32_in(0.3, 1.0), far]);
+    let mut obox = ([-s * rng.f32_in(0.5, 1.0), -s * rng.f32_in(0.3, 1.0), near], [s * rng.f32_in(0.5, 1.0), s * rng.f32_in(0.3, 1.0), far]);
+    // boxes off the axis and with a flipped y (a y-up convention), as users build them
+    if rng.chance(1, 4) {
+        let (dx, dy) = (rng.f32_in(-2.0, 2.0) * s, rng.f32_in(-2.0, 2.0) * s);
+        obox.0[0] += dx;
+        obox.1[0] += dx;
+        obox.0[1] += dy;
+        obox.1[1] += dy;
+    }
+    if rng.chance(1, 6) {
+        let (a, b) = (obox.0[1], obox.1[1]);
+        obox.0[1] = b;
+        obox.1[1] = a;
+    }
     let ntri = 1 + rng.below(5) as usize;
     let mut verts = vec![];
     let mut tris = vec![];
@@ -208,6 +235,21 @@ pub fn gen_sized(rng: &mut Rng, small_max: u64, allow_big: bool) -> Case {
         tris[1][0] = tris[0][0];
         tris[1][1] = tris[0][2];
     }
+    // a triangle naming the same vertex twice (or three times)
+    if rng.chance(1, 25) {
+        let k = rng.usize(ntri);
+        tris[k][1] = tris[k][0];
+        if rng.bool() {
+            tris[k][2] = tris[k][0];
+        }
+    }
+    // the stated domain: |view-space coordinate| ≤ 1000·near (the mutations
+    // above can leave it)
+    for (p, _) in verts.iter_mut() {
+        for c in p.iter_mut() {
+            *c = c.clamp(-lim, lim);
+        }
+    }
     Case {
         bw,
         bh,
@@ -228,6 +270,113 @@ pub fn gen_sized(rng: &mut Rng, small_max: u64, allow_big: bool) -> Case {
         cw: !rng.chance(1, 5),
         dw: !rng.chance(1, 5),
         discard: rng.chance(1, 5),
+        flip: if rng.chance(1, 6) { (rng.bool(), rng.bool()) } else { (false, false) },
+        generator: if free { "free parameters" } else { "palette" },
+    }
+}
+
+/// Scenes whose vertices lie *bit-exactly* on frustum planes: all parameters
+/// are powers of two or small integers, so that x = ±w, y = ±w, z = ±w hold
+/// exactly after the projection. Patterns: a vertex, an edge or a whole
+/// triangle in a plane; a triangle touching a plane or a frustum corner from
+/// outside (its clipped polygon has one or two vertices left), followed in
+/// the same call by triangles that straddle planes — where bookkeeping slips
+/// of the clipper's reused scratch buffers live.
+pub fn gen_on_planes(rng: &mut Rng) -> Case {
+    let n = rng.pick(&[8u32, 16, 32]);
+    let (bw, bh) = (n * rng.pick(&[1u32, 2]), n);
+    let tk = rng.pick(&[Tk::FbOwned, Tk::FbWindow, Tk::ColOwned]);
+    let win = if tk.is_window() { (2, 1, bw - 3, bh - 2) } else { (0, 0, bw, bh) };
+    // a viewport with a power-of-two aspect inside the window
+    let (vw, vh) = if win.2 >= 2 * (win.3 / 2) && rng.bool() { (2 * (win.3 / 2).max(1), (win.3 / 2).max(1)) } else { (win.3.min(win.2), win.3.min(win.2)) };
+    let vp = (0, 0, vw.max(1), vh.max(1));
+    let aspect = vp.2 as f32 / vp.3 as f32; // 1 or 2
+    let ortho = rng.chance(1, 3);
+    let near = rng.pick(&[0.5f32, 1.0, 2.0]);
+    let far = near * rng.pick(&[2.0f32, 3.0, 5.0, 9.0]);
+    let focal = rng.pick(&[0.5f32, 1.0, 2.0]);
+    let h = rng.pick(&[1.0f32, 2.0, 4.0]);
+    let obox = ([-h, -h / 2.0, near], [h, h / 2.0, far]);
+    // a point exactly on plane `pl` (0 near, 1 far, 2 left, 3 right, 4 bottom, 5 top) at parameters (a, b) ∈ [-1, 1]²
+    let on = |pl: usize, a: f32, b: f32, zsel: f32| -> [f32; 3] {
+        // zsel ∈ {near, far, mid values}: dyadic depths
+        let z = zsel;
+        let (sx, sy) = if ortho { (h, h / 2.0) } else { (z / focal, z / (focal * aspect)) };
+        match pl {
+            0 => [a * if ortho { h } else { near / focal }, b * if ortho { h / 2.0 } else { near / (focal * aspect) }, near],
+            1 => [a * if ortho { h } else { far / focal }, b * if ortho { h / 2.0 } else { far / (focal * aspect) }, far],
+            2 => [-sx, b * sy, z],
+            3 => [sx, b * sy, z],
+            4 => [a * sx, -sy, z],
+            _ => [a * sx, sy, z],
+        }
+    };
+    let depths = [near, far, near * 2.0, (near + far) / 2.0];
+    let mut dy = |rng: &mut Rng| rng.pick(&[-1.0f32, -0.5, 0.0, 0.25, 0.5, 1.0]);
+    let mut verts: Vec<([f32; 3], f32)> = vec![];
+    let mut tris = vec![];
+    let ntri = 2 + rng.usize(4);
+    for k in 0..ntri {
+        let pl = rng.usize(6);
+        let z = rng.pick(&depths);
+        let p_on = on(pl, dy(rng), dy(rng), z);
+        // outward direction of plane pl in view space (for points strictly outside)
+        let outward = |p: [f32; 3], f: f32| -> [f32; 3] {
+            match pl {
+                0 => [p[0], p[1], p[2] - f * near],
+                1 => [p[0], p[1], p[2] + f * far],
+                2 => [p[0] - f * p[0].abs().max(1.0), p[1], p[2]],
+                3 => [p[0] + f * p[0].abs().max(1.0), p[1], p[2]],
+                4 => [p[0], p[1] - f * p[1].abs().max(1.0), p[2]],
+                _ => [p[0], p[1] + f * p[1].abs().max(1.0), p[2]],
+            }
+        };
+        let inside_pt = [0.0, 0.0, (near + far) / 2.0];
+        let t: [[f32; 3]; 3] = match rng.below(6) {
+            // one vertex on the plane, the others strictly outside it
+            0 => [p_on, outward(on(pl, dy(rng), dy(rng), z), 0.5), outward(on(pl, dy(rng), dy(rng), z), 1.0)],
+            // an edge in the plane, the third vertex outside
+            1 => [p_on, on(pl, dy(rng), dy(rng), rng.pick(&depths)), outward(on(pl, dy(rng), dy(rng), z), 0.5)],
+            // the whole triangle in the plane
+            2 => [p_on, on(pl, dy(rng), dy(rng), rng.pick(&depths)), on(pl, dy(rng), dy(rng), rng.pick(&depths))],
+            // one vertex on the plane, the others inside
+            3 => [p_on, inside_pt, [inside_pt[0] + 0.25, inside_pt[1], inside_pt[2]]],
+            // straddling: one in, one on, one out
+            4 => [p_on, inside_pt, outward(on(pl, dy(rng), dy(rng), z), 1.0)],
+            // a frustum corner (on two side planes at once) touched from outside
+            _ => {
+                let c = on(3, 0.0, 1.0, z); // x = +w, y = +w
+                [c, [c[0] * 2.0, c[1], c[2]], [c[0], c[1] * 2.0, c[2]]]
+            }
+        };
+        let b = 3 * k;
+        for p in t {
+            verts.push((p, rng.f32_in(0.0, 1.0)));
+        }
+        tris.push([b, b + 1, b + 2]);
+    }
+    Case {
+        bw,
+        bh,
+        win,
+        vp,
+        tk,
+        ortho,
+        near,
+        far,
+        focal,
+        aspect,
+        obox,
+        verts,
+        tris,
+        cull: rng.pick(&[None, None, Some(FaceCull::Back), Some(FaceCull::Front)]),
+        sort: rng.pick(&[None, Some(DepthSort::FrontToBack), Some(DepthSort::BackToFront)]),
+        test: rng.pick(&[None, None, Some(Ordering::Less), Some(Ordering::Greater)]),
+        cw: true,
+        dw: true,
+        discard: false,
+        flip: (false, false),
+        generator: "vertices exactly on frustum planes",
     }
 }
 
@@ -240,14 +389,36 @@ fn sentinel(which: u32, x: u32, y: u32) -> (u32, f32) {
 }
 
 pub fn run_case(rep: &mut Report, c: &Case) {
-    let ctx = c.ctx();
-    let proj = c.proj();
     let (l, t, r, b) = c.vp;
-    let to_screen = viewport(pt2(l, t)..pt2(r, b));
+    let mats = crate::catch(|| {
+        let (x0, x1) = if c.flip.0 { (r, l) } else { (l, r) };
+        let (y0, y1) = if c.flip.1 { (b, t) } else { (t, b) };
+        (c.proj(), viewport(pt2(x0, y0)..pt2(x1, y1)))
+    });
+    let (proj, to_screen) = match mats {
+        Ok(m) => m,
+        Err(m) => {
+            rep.violation("render.panic", format!("the projection or viewport matrix constructor panicked: {m}"), c.json());
+            return;
+        }
+    };
     let mut drew = false;
-    for which in 0..2 {
+    // Passes 0 and 1: the scene's own flags over two sentinel patterns. Pass 2
+    // (only if the scene's flags can hide a stray fragment: a depth predicate
+    // that rarely passes, masked writes, a discarding shader): the same
+    // geometry with every fragment written — another scene of the quantifier,
+    // in which a fragment outside the viewport or a NaN depth cannot hide.
+    let restrictive = c.test == Some(Ordering::Equal) || !c.cw || !c.dw || c.discard || (c.test.is_some() && c.verts.len() % 2 == 0);
+    for which in 0..(if restrictive { 3 } else { 2 }) {
+        let permissive = which == 2;
+        let ctx = if permissive { Context { depth_test: None, color_write: true, depth_write: true, ..c.ctx() } } else { c.ctx() };
+        let ctx = &ctx;
+        let which = which % 2;
+        if permissive {
+            rep.count("passes_with_every_fragment_written");
+        }
         let mut cv = Canvas::new(c.bw, c.bh, c.win, |x, y| sentinel(which, x, y).0, |x, y| sentinel(which, x, y).1);
-        let discard = c.discard;
+        let discard = c.discard && !permissive;
         let res = render_view::<f32, _>(
             &c.verts,
             &c.tris,
@@ -259,11 +430,20 @@ pub fn run_case(rep: &mut Report, c: &Case) {
                     Some(pack(0x00C0_FFEE))
                 }
             },
-            &ctx,
+            ctx,
             to_screen,
             &mut cv,
             c.tk,
         );
+        if which == 0 && !permissive {
+            let st = ctx.stats.borrow();
+            if st.frags.i > 0 {
+                rep.count("scenes_with_fragments");
+            }
+            if st.prims.o as usize > c.tris.len() * 2 {
+                rep.count("scenes_where_clipping_split_triangles");
+            }
+        }
         if let Err(m) = res {
             rep.violation("render.panic", format!("render() panicked: {m}"), c.json());
             return;
@@ -296,22 +476,16 @@ pub fn run_case(rep: &mut Report, c: &Case) {
             }
         }
     }
-    let st = ctx.stats.borrow();
-    if st.frags.i > 0 {
-        rep.count("scenes_with_fragments");
-    }
     if drew {
         rep.count("scenes_with_visible_writes");
-    }
-    if st.prims.o as usize > c.tris.len() * 2 {
-        rep.count("scenes_where_clipping_split_triangles");
     }
 }
 
 fn hash_case(c: &Case) -> u64 {
     let mut h = Hasher::new();
     h.u64(c.bw as u64).u64(c.bh as u64).u64(c.vp.0 as u64).u64(c.vp.1 as u64).u64(c.vp.2 as u64).u64(c.vp.3 as u64);
-    h.f32(c.near).f32(c.far).f32(c.focal).u64(c.ortho as u64);
+    h.f32(c.near).f32(c.far).f32(c.focal).u64(c.ortho as u64).u64(c.win.0 as u64).u64(c.win.1 as u64).u64(c.tk as u64).u64(c.flip.0 as u64 * 2 + c.flip.1 as u64);
+    h.u64(c.cw as u64 | (c.dw as u64) << 1 | (c.discard as u64) << 2).bytes(format!("{:?}{:?}{:?}{:?}", c.cull, c.sort, c.test, c.tris).as_bytes());
     for (p, _) in &c.verts {
         h.f32s(p);
     }
@@ -319,7 +493,7 @@ fn hash_case(c: &Case) -> u64 {
 }
 
 pub fn run(cfg: &Cfg, rep: &mut Report) {
-    rep.rule = "case = one scene (1..5 view-space triangles, projection, viewport, target kind, Context flags) rendered twice over different sentinel patterns; generators aim at near/far/side planes ±1ulp, the eye plane, behind-camera, coincident, collinear and sub-pixel triangles, 1x1 buffers and single-row/column viewports; non-trivial = produced at least one fragment; distinct by hash of geometry+projection+viewport".into();
+    rep.rule = "case = one scene (1..5 view-space triangles, projection, viewport, target kind, Context flags) rendered twice over different sentinel patterns; generators aim at near/far/side planes ±1ulp, the eye plane, behind-camera, coincident, collinear and sub-pixel triangles, 1x1 buffers and single-row/column viewports, mirrored viewports, triangles naming a vertex twice; a stream of scenes whose vertices lie bit-exactly on frustum planes (touching patterns in multi-triangle calls) and a stream of frames up to 4096 px; scenes whose flags could hide a stray fragment are rendered once more with every fragment written; non-trivial = produced at least one fragment; distinct by hash of geometry+projection+viewport".into();
     rep.assumptions.push("numeric domain as stated in the property: far/near ≤ 1000, |view coordinate| ≤ 1000·near, focal ratio 0.1..10".into());
 
     // pinned F1 consequence: NaN depths with the depth test off
@@ -344,6 +518,8 @@ pub fn run(cfg: &Cfg, rep: &mut Report) {
             cw: true,
             dw: true,
             discard: false,
+            flip: (false, false),
+            generator: "pin",
         };
         let mut r2 = Report::new();
         run_case(&mut r2, &c);
@@ -358,7 +534,7 @@ pub fn run(cfg: &Cfg, rep: &mut Report) {
             bw: 16, bh: 1, win: (0, 0, 16, 1), vp: (0, 0, 16, 1), tk: Tk::FbOwned, ortho: false, near: 1.0, far: 10.0, focal: 0.5, aspect: 16.0,
             obox: ([0.0; 3], [1.0; 3]),
             verts: vec![([0.0, fb(0x4028e34a), -1.0], 0.0), ([fb(0x3d4c9ff4), fb(0x80000001), 1.0], 1.0), ([fb(0x4026dd98), fb(0xbecd1f68), fb(0x3fa6dd98)], 0.5)],
-            tris: vec![[0, 1, 2]], cull: None, sort: None, test: Some(Ordering::Greater), cw: true, dw: false, discard: false,
+            tris: vec![[0, 1, 2]], cull: None, sort: None, test: Some(Ordering::Greater), cw: true, dw: false, discard: false, flip: (false, false), generator: "pin",
         };
         let mut r2 = Report::new();
         run_case(&mut r2, &c);
@@ -369,7 +545,7 @@ pub fn run(cfg: &Cfg, rep: &mut Report) {
             bw: 18, bh: 14, win: (0, 0, 18, 14), vp: (11, 7, 16, 10), tk: Tk::FbOwned, ortho: false, near: 10.0, far: 20.0, focal: 10.0, aspect: fb(0x3fd55555),
             obox: ([0.0; 3], [1.0; 3]),
             verts: vec![(p, 0.0), (p, 1.0), ([0.0, 0.0, fb(0x418f5b72)], 0.5)],
-            tris: vec![[0, 1, 2]], cull: None, sort: None, test: None, cw: false, dw: true, discard: false,
+            tris: vec![[0, 1, 2]], cull: None, sort: None, test: None, cw: false, dw: true, discard: false, flip: (false, false), generator: "pin",
         };
         let mut r2 = Report::new();
         run_case(&mut r2, &c);
@@ -395,11 +571,60 @@ pub fn run(cfg: &Cfg, rep: &mut Report) {
             rep.count("viewport.single_row_or_column");
         }
         rep.count(&format!("ctx.test_{:?}", c.test));
+        if c.flip != (false, false) {
+            rep.count("viewport.mirrored");
+        }
         if i < 2 {
             rep.sample(|| c.json());
         }
     });
+    // Stream 1: vertices bit-exactly on frustum planes, touching patterns
+    let n1 = cfg.n(300_000, 30_000_000);
+    rep.run_stream(cfg, 1, "on_plane_patterns", n1, |rng, i, rep| {
+        let c = gen_on_planes(rng);
+        if cfg.only.is_some() {
+            explain(&c);
+        }
+        run_case(rep, &c);
+        rep.case(hash_case(&c), true);
+        rep.count("on_plane.scenes");
+        if i < 1 {
+            rep.sample(|| c.json());
+        }
+    });
+    // Stream 2: realistic and elongated frames up to 4096 px: edge drift and
+    // clip overshoot grow with the extent (known finding F9's mechanism), and
+    // here they would turn into a write outside the viewport or a panic
+    let n2 = cfg.n(3_000, 200_000);
+    rep.run_stream(cfg, 2, "large_targets", n2, |rng, i, rep| {
+        let long = rng.pick(&[1024u32, 1536, 2048, 3000, 4096]);
+        let short = rng.pick(&[1u32, 2, 3, 5, 8, 33]);
+        let dims = match rng.below(4) {
+            0 => (long, short),
+            1 => (short, long),
+            2 => (640, 480),
+            _ => (long / 4, long / 4 + 1),
+        };
+        let c = gen_dims(rng, 24, false, Some(dims));
+        if cfg.only.is_some() {
+            explain(&c);
+        }
+        run_case(rep, &c);
+        rep.case(hash_case(&c), true);
+        rep.count("large_targets.scenes");
+        if i < 1 {
+            rep.sample(|| c.json());
+        }
+    });
     let _ = next_down(1.0);
+    rep.floor("on_plane.scenes", n1 / 2);
+    rep.floor("large_targets.scenes", n2 / 2);
+    rep.floor("passes_with_every_fragment_written", n / 4);
+    rep.floor("viewport.mirrored", n / 20);
+    rep.floor("projection.orthographic", n / 8);
+    for tk in [Tk::FbOwned, Tk::FbWindow, Tk::ColOwned, Tk::ColWindow] {
+        rep.floor(&format!("target.{}", tk.name()), n / 10);
+    }
     rep.floor("scenes_with_fragments", n * 2 / 5);
     rep.floor("scenes_with_visible_writes", n / 4);
     rep.floor("scenes_where_clipping_split_triangles", n / 100);
